@@ -304,13 +304,23 @@ func (r *Raft) onSnapshotTaken(t snapTaken) {
 		if trace {
 			println(r, "nowCompact:", nowCompact, "canCompact:", canCompact)
 		}
-		if nowCompact > r.log.PrevIndex() {
-			_ = r.compactLog(nowCompact)
-		}
-		if canCompact > nowCompact {
-			// notify repls with new logView
-			r.ldr.removeLTE = canCompact
-			r.ldr.notifyFlr(false)
+		if r.state == Leader && len(r.ldr.repls) > 0 {
+			// replications read the log through views: compact only after
+			// each of them has switched to a view starting at canCompact
+			// (see leader.checkLogCompact)
+			if canCompact > r.ldr.removeLTE {
+				// notify repls with new logView
+				r.ldr.removeLTE = canCompact
+				r.ldr.notifyFlr(false)
+			}
+		} else {
+			if nowCompact > r.log.PrevIndex() {
+				_ = r.compactLog(nowCompact)
+			}
+			if r.state == Leader {
+				// views handed out from now on must start inside the log
+				r.ldr.removeLTE = r.log.PrevIndex()
+			}
 		}
 	}
 	t.req.reply(t.meta.index)
